@@ -47,7 +47,8 @@ def gen_case(rng, hostile_p=0.08, limits=None, max_nodes=40, n_frames=None, n_wa
     for i in range(nf):
         d = g.locals_dict()
         if rng.random() < 0.25:
-            d["self"] = rng.choice([objgen.Plain(), objgen.Person("p", 3), None, 5])
+            d["self"] = rng.choice([objgen.Plain(), objgen.Person("p", 3), None, 5, objgen.BadLen(), objgen.BadBool(), objgen.Falsy(),
+                                    objgen.Falsy(), 0, ""])
             g.pool.append(d["self"])
         frames.append(dict(file=rng.choice(["/app/src/main.py", "/app/lib/util.py", "/usr/lib/python3/os.py", "/other/x.py"]),
                            func=rng.choice(["handler", "run", "<module>", "f"]), line=rng.randrange(1, 200), locals=d))
@@ -72,7 +73,7 @@ def gen_case(rng, hostile_p=0.08, limits=None, max_nodes=40, n_frames=None, n_wa
                 keep=g.pool)
 
 
-def run_impl(case, n_actions=1, event="line", arg=None, extra_cfg=None):
+def run_impl(case, n_actions=1, event="line", arg=None, extra_cfg=None, per_action=None):
     """Drive the real handler once; returns (list of snapshots in action order, handler error log)."""
     from deep.api.resource import Resource
     from deep.api.tracepoint.trigger import LocationAction, Trigger, LineLocation, Location
@@ -88,10 +89,13 @@ def run_impl(case, n_actions=1, event="line", arg=None, extra_cfg=None):
     lim = case["limits"]
     actions = []
     for k in range(n_actions):
-        conf = {"watches": [w for w, _ in case["watches"]], "frame_type": case["frame_type"], "stack_type": "stack",
+        # per_action[k] = dict(watches=[(expr, value)...], limits={...}): tracepoints on one event that collect differently
+        pa = (per_action or [None] * n_actions)[k] or {}
+        lim_k = pa.get("limits", lim)
+        conf = {"watches": [w for w, _ in pa.get("watches", case["watches"])], "frame_type": case["frame_type"], "stack_type": "stack",
                 "fire_count": "-1", "fire_period": "0", "log_msg": None,
-                "MAX_VARIABLES": lim["max_vars"], "MAX_COLLECTION_SIZE": lim["max_coll"],
-                "MAX_VAR_DEPTH": lim["max_depth"], "MAX_STRING_LENGTH": lim["max_str"], "MAX_TP_PROCESS_TIME": 10 ** 9}
+                "MAX_VARIABLES": lim_k["max_vars"], "MAX_COLLECTION_SIZE": lim_k["max_coll"],
+                "MAX_VAR_DEPTH": lim_k["max_depth"], "MAX_STRING_LENGTH": lim_k["max_str"], "MAX_TP_PROCESS_TIME": 10 ** 9}
         if event != "line":
             conf["stage"] = "line_capture"
         conf.update(extra_cfg or {})
@@ -104,6 +108,8 @@ def run_impl(case, n_actions=1, event="line", arg=None, extra_cfg=None):
     for f in reversed(case["frames"]):
         back = mk_frame(f["file"], f["func"], f["line"], f["locals"], back)
     table = {w: v for w, v in case["watches"]}
+    for pa in (per_action or []):
+        table.update({w: v for w, v in (pa or {}).get("watches", [])})
     real_eval = TriggerContext.evaluate_expression
     TriggerContext.evaluate_expression = lambda self, expr: table[expr] if expr in table else real_eval(self, expr)
     raised = None
